@@ -91,6 +91,20 @@ def universe_n2(leaves, leaves5, leaves4):
         yield ("tern", c, ("tern", d, a, b), e)
 
 
+def universe_tern_sign():
+    """?: with one signed and one unsigned branch (the result has the common type whichever branch is selected),
+    negative values among the operands, alone and under every binary operator"""
+    vals = [L("0u"), L("1u"), L("2"), L("7"), ("un", "-", L("1")), ("un", "-", L("2u"))]
+    for c in (L("0"), L("1")):
+        for a in vals:
+            for b in vals:
+                t = ("tern", c, a, b)
+                yield t
+                for o in cexpr.BINARY:
+                    yield ("bin", o, t, L("2"))
+                    yield ("bin", o, L("2"), t)
+
+
 # ------------------------------------------------------------------ the real code
 _plat = None
 
@@ -357,7 +371,7 @@ def run(tier):
     rot = env.SEED % len(LEAVES)
     trio = [LEAVES[(rot + k * 7) % len(LEAVES)] for k in range(3)]
     ext = [a for a in universe_n2(trio, [], [])]
-    allasts = n1 + n2 + ext
+    allasts = n1 + n2 + ext + list(universe_tern_sign())
     res = par.pmap(_work, [(c, False) for c in _chunk(allasts, 4000)] + [(c, True) for c in _chunk(n1, 4000)])
     tested = sum(r[0] for r in res)
     defined = sum(r[1] for r in res)
